@@ -8,9 +8,10 @@ import ShVerif.Base.Hex
   Three layers, smallest first:
    1. the decision itself:   Incomplete := tok == _EOF && (openNodes > 0 || len(litBs) > 0)
    2. reading one body:      a body is a list of lines compared with the stop word
-   3. scheduling:            which newline token makes the parser read the pending bodies — the
-                             one that ends the `<<` line, unless it was lexed while the pending
-                             here-documents were "buried" by preNested (`[[ … ]]`, `let …`)
+   3. scheduling:            which token makes the parser read the pending bodies — the newline
+                             that ends the `<<` line, or, when that newline was lexed while the
+                             pending here-documents were "buried" by preNested (`[[ … ]]`,
+                             `let …`), the postNested that follows it (since a243c26)
 -/
 namespace ShVerif.C10
 
@@ -79,13 +80,19 @@ def scanUnquoted (tabs : Bool) (stop : Bytes) (s : PState) : List Bytes → List
 def scan (fixed quoted tabs : Bool) (stop : Bytes) (s : PState) (lines : List Bytes) : Outcome :=
   if quoted then scanQuoted fixed tabs stop s lines [] else scanUnquoted tabs stop s lines []
 
-/-! ### 3. which newline reads the bodies -/
+/-- `doHeredocs` since a243c26: it brackets itself with `openNodes++ … openNodes--` while it reads
+    the bodies, so that an unclosed here-document at EOF is Incomplete whoever the caller is — also
+    the entry point (`Parse`, `StmtsSeq`) calling it after `stmts` has returned. -/
+def readBody (quoted tabs : Bool) (stop : Bytes) (s : PState) (lines : List Bytes) : Outcome :=
+  scan true quoted tabs stop { s with openNodes := s.openNodes + 1 } lines
+
+/-! ### 3. which token reads the bodies -/
 
 /-- The tokens of the line that holds the `<<` operator, as far as here-documents care. -/
 inductive Item
   | hdoc    -- a `<<`/`<<-` redirection: `p.heredocs = append(p.heredocs, r)`
   | enter   -- preNested: `buriedHdocs = len(heredocs)`
-  | leave   -- postNested: `buriedHdocs` restored
+  | leave   -- postNested: `buriedHdocs` restored; reads the bodies if the current token is a buried newline
   | newl    -- a newline token is lexed (Parser.next)
   | tok     -- any other token
   deriving DecidableEq, Repr
@@ -94,55 +101,61 @@ structure LSt where
   pending : Nat            -- len(p.heredocs)
   buried : Nat             -- p.buriedHdocs
   saved : List Nat         -- the saveState values of the enclosing preNested calls
+  atNewl : Bool            -- p.tok == _Newl
   fired : Bool             -- doHeredocs has run for the pending bodies
   deriving DecidableEq, Repr
 
-def LSt.init : LSt := { pending := 0, buried := 0, saved := [], fired := false }
+def LSt.init : LSt := { pending := 0, buried := 0, saved := [], atNewl := false, fired := false }
 
 /-- `Parser.next` at a newline: `if p.quote != hdocWord && len(p.heredocs) > p.buriedHdocs { p.doHeredocs() }` -/
 def LSt.newlineFires (s : LSt) : Bool := s.pending > s.buried
 
 def step (s : LSt) : Item → LSt
-  | .hdoc => { s with pending := s.pending + 1 }
+  | .hdoc => { s with pending := s.pending + 1, atNewl := false }
   | .enter => { s with saved := s.buried :: s.saved, buried := s.pending }
   | .leave =>
+    -- postNested (since a243c26): `p.quote, p.buriedHdocs = s.quote, s.buriedHdocs;
+    --   if p.tok == _Newl && … len(p.heredocs) > p.buriedHdocs { p.doHeredocs() }`
     match s.saved with
-    | b :: r => { s with buried := b, saved := r }
+    | b :: r =>
+      if s.atNewl && s.pending > b then { s with buried := b, saved := r, fired := true, pending := b }
+      else { s with buried := b, saved := r }
     | [] => s
-  | .newl => if s.newlineFires then { s with fired := true, pending := s.buried } else s
-  | .tok => s
+  | .newl =>
+    if s.newlineFires then { s with fired := true, pending := s.buried, atNewl := true }
+    else { s with atNewl := true }
+  | .tok => { s with atNewl := false }
 
 def runLine (items : List Item) : LSt := items.foldl step LSt.init
 
 /-- The outcome of parsing `<line>\n<n body lines>` + EOF, none of the lines being the stop word,
     where the body lines are themselves valid simple commands (what the harness generates):
-    * the line's own newline fired: the bodies are read inside the statement bracket
-      (`openNodes ≥ 1`) and run into EOF — incomplete;
-    * it did not (the newline was lexed while buried): the following lines are parsed as
-      commands; the newline ending the first of them is lexed unburied, inside that command's
-      statement bracket, and reads the bodies — incomplete; with no following line, `Parse` itself
-      calls doHeredocs after `stmts` has returned: no bracket is open, nothing has been read into a
-      literal — NOT incomplete. -/
+    * doHeredocs ran on the line (at its newline token, or at the postNested that follows a buried
+      newline): the bodies are read inside the statement bracket and doHeredocs' own;
+    * it did not although a here-document is pending (the buried newline is not followed by a
+      postNested on this line): the following lines are parsed as commands; the newline ending the
+      first of them reads the bodies from inside that command's statement bracket; with no
+      following line, the entry point itself calls doHeredocs after `stmts` has returned — only
+      doHeredocs' own bracket is open. -/
 def prefixFlag (items : List Item) (quoted : Bool) (stop : Bytes) (bodyLines : List Bytes) : Option Bool :=
   let s := runLine items
   if s.fired then
-    match scan true quoted false stop (inBrackets .newl 1 0) bodyLines with
+    match readBody quoted false stop (inBrackets .newl 1 0) bodyLines with
     | .unclosedErr b => some b
     | .closed _ => none
   else if s.pending = 0 then none   -- no here-document on the line
   else
     match bodyLines with
     | [] =>
-      match scan true quoted false stop (inBrackets .eof 0 0) [] with
+      match readBody quoted false stop (inBrackets .eof 0 0) [] with
       | .unclosedErr b => some b
       | .closed _ => none
     | _ :: rest =>
-      match scan true quoted false stop (inBrackets .newl 1 0) rest with
+      match readBody quoted false stop (inBrackets .newl 1 0) rest with
       | .unclosedErr b => some b
       | .closed _ => none
 
-/-- "the newline that ends the line is lexed outside every preNested region that was entered
-    after the first `<<`" — the extra hypothesis of the partial theorem. -/
+/-- doHeredocs runs while the line that holds the `<<` is lexed -/
 def lineFires (items : List Item) : Bool := (runLine items).fired
 
 end ShVerif.C10
